@@ -47,6 +47,7 @@ TSetFmt ==
             Chk(ev.ok = 0 => RefusedAs(ev, {"USAGE"}, {"EINVAL"}),
                 <<l, "SetFmt", "err", "EINVAL">>),
             Chk(ev.ok = 0 => ev.kept = 1, <<l, "SetFmt", "keptOnFailure", 1>>),
+            Chk(CbQuietOnSuccess(ev), <<l, "SetFmt", "cbOnSuccess", "warnings only">>),
             Chk((r.ok = "yes" /\ ev.ok = 1) => (g.ok = "yes" /\ g.fmts = r.fmts),
                 <<l, "SetFmt", "getFormat", r.fmts>>)
           >>)
@@ -67,6 +68,8 @@ TStick ==
             Chk((~r.ok /\ o.op = "load") =>
                     RefusedAs(ev, {"SYNTAX", "VERSION"}, {"EBADMSG", "ENOPROTOOPT"}),
                 <<l, "Stick", "refused", <<ft, r>> >>),
+            Chk(CbQuietOnSuccess(ev), <<l, "Stick", "cbOnSuccess", "warnings only">>),
+            Chk(CbOnceOnFailure(ev), <<l, "Stick", "cbOnFailure", "one report matching errno">>),
             Chk(ev.ft \in r.after, <<l, "Stick", "filetype", <<ft, r.after>> >>),
             Chk((o.op = "save" /\ ev.ok = 1) => ev.wrote = r.wrote,
                 <<l, "Stick", "wrote", r.wrote>>),
